@@ -1054,6 +1054,59 @@ pub proof fn lemma_tpos_distinct(rv: Seq<usize>, j1: int, j2: int, sm: int)
         proof { assert(map.diagP@ =~= cp.subrange(0, n as int)); }
 //@end
 
+//@fn file=src/solver/core/kktsolvers/direct/quasidef/kkt_assembly.rs name=_kkt_assemble_colcounts as=kkt_count_triu_arm rules=R1 from=@arm to="MatrixTriangle::Triu#1" header="fn _kkt_assemble_colcounts<T: FloatT>(K: &mut CscMatrix<T>, P: &CscMatrix<T>, A: &CscMatrix<T>, n: usize)"
+//@contract
+    requires
+        P.colptr_ok_u(), A.colptr_ok_u(), P.n == n, P.m == n, A.n == n, old(K).colptr@.len() > n + A.m, old(K).colptr@.len() <= usize::MAX,
+        forall|k: int| 0 <= k < A.rowval@.len() ==> #[trigger] A.rowval@[k] < A.m,
+        P.rowval@.len() + A.rowval@.len() + 1 <= usize::MAX,
+        // the counting pass starts from zero counts (K.colptr.fill(0))
+        forall|c: int| 0 <= c < old(K).colptr@.len() ==> #[trigger] old(K).colptr@[c] == 0,
+    ensures
+        final(K).colptr@.len() == old(K).colptr@.len(), final(K).rowval@ == old(K).rowval@, final(K).nzval@ == old(K).nzval@,
+        // C11: column c < n is counted with P's entries plus one for a missing diagonal entry; column n + r with the entries of row r of A
+        forall|c: int| 0 <= c < n ==> #[trigger] final(K).colptr@[c] == pcnt(*P, c) + mdn(*P, c),
+        forall|r: int| 0 <= r < A.m ==> #[trigger] final(K).colptr@[n + r] == count_row(A.rowval@, r, A.rowval@.len() as int),
+        forall|c: int| n + A.m <= c < old(K).colptr@.len() ==> #[trigger] final(K).colptr@[c] == 0,
+//@pre
+        let ghost gn = n as int;
+        proof {
+            assert forall|i: int| 0 <= i < P.n implies P.colptr@[i] <= #[trigger] P.colptr@[i + 1] by { }
+            assert(P.colptr@[P.n as int] == P.rowval@.len());
+        }
+//@after_stmt 1
+        let ghost K1 = *K;
+        proof {
+            assert forall|i: int| 0 <= i < gn implies #[trigger] K1.colptr@[i] == pcnt(*P, i) by { assert(K1.colptr@[0 + i] == 0 + (P.colptr@[i + 1] - P.colptr@[i])); }
+            assert forall|c: int| gn <= c < K1.colptr@.len() implies #[trigger] K1.colptr@[c] == 0 by { }
+            assert forall|i: int| 0 <= i < P.n implies P.colptr@[i] <= #[trigger] P.colptr@[i + 1] <= P.rowval@.len() by { assert(P.colptr@[i + 1] <= P.colptr@[P.n as int]); }
+            assert forall|c: int| 0 <= c < K1.colptr@.len() implies K1.colptr@[c] < usize::MAX by {
+                if c < gn { assert(K1.colptr@[c] == pcnt(*P, c)); assert(P.colptr@[c + 1] <= P.colptr@[P.n as int]); }
+            }
+        }
+//@after_stmt 2
+        let ghost K2 = *K;
+        proof {
+            assert forall|c: int| 0 <= c < gn implies #[trigger] K2.colptr@[c] == pcnt(*P, c) + mdn(*P, c) by { assert(K2.colptr@[c + 0] == K1.colptr@[c + 0] + mdn(*P, c)); }
+            assert forall|c: int| gn <= c < K2.colptr@.len() implies #[trigger] K2.colptr@[c] == 0 by { assert(K1.colptr@[c] == 0); }
+            assert forall|c: int| 0 <= c < K2.colptr@.len() implies K2.colptr@[c] + A.rowval@.len() <= usize::MAX by {
+                if c < gn { assert(K2.colptr@[c] == pcnt(*P, c) + mdn(*P, c)); assert(P.colptr@[c + 1] <= P.colptr@[P.n as int]); }
+            }
+        }
+//@after_stmt 3
+        proof {
+            assert forall|c: int| 0 <= c < gn implies #[trigger] K.colptr@[c] == pcnt(*P, c) + mdn(*P, c) by {
+                lemma_count_row_absent_below(A.rowval@, c - gn, A.rowval@.len() as int);
+            }
+            assert forall|r: int| 0 <= r < A.m implies #[trigger] K.colptr@[gn + r] == count_row(A.rowval@, r, A.rowval@.len() as int) by {
+                assert(K.colptr@[gn + r] == K2.colptr@[gn + r] + count_row(A.rowval@, (gn + r) - gn, A.rowval@.len() as int));
+            }
+            assert forall|c: int| gn + A.m <= c < K.colptr@.len() implies #[trigger] K.colptr@[c] == 0 by {
+                lemma_count_row_absent(A.rowval@, c - gn, A.rowval@.len() as int);
+            }
+        }
+//@end
+
 // ---- KKT assembly, upper-triangle layout: the three fills that place P, its missing diagonal entries and A' ----
 pub open spec fn pcnt(P: CscMatrix<F>, c: int) -> int { P.colptr@[c + 1] - P.colptr@[c] }
 pub open spec fn mdn(P: CscMatrix<F>, c: int) -> int { if missing_diag(P, c) { 1int } else { 0int } }
@@ -1312,6 +1365,37 @@ pub proof fn lemma_kkt_cursors_mono(K: CscMatrix<F>, P: CscMatrix<F>, A: CscMatr
 }
 
 
+
+
+// from counts to cursors: whatever else the counting pass adds (the cone loop only ever increases counts), the cursors
+// produced by colcount_to_colptr satisfy the hand-over condition of the fill arm, provided the allocation covers the total
+#[verifier::spinoff_prover]
+pub proof fn lemma_counts_give_triu_pre(Kc: CscMatrix<F>, Kp: CscMatrix<F>, P: CscMatrix<F>, A: CscMatrix<F>, n: int)
+    requires
+        P.colptr_ok_u(), A.colptr_ok_u(), P.n == n, P.m == n, A.n == n, Kc.colptr@.len() > n + A.m, Kc.colptr@.len() <= usize::MAX,
+        Kp.arrays_ok(), Kp.rowval@.len() <= usize::MAX,
+        forall|k: int| 0 <= k < A.rowval@.len() ==> #[trigger] A.rowval@[k] < A.m,
+        forall|k: int| 0 <= k < P.rowval@.len() ==> #[trigger] P.rowval@[k] < n,
+        // counts at the end of the counting pass: at least what the P / A arm counted
+        forall|c: int| 0 <= c < n ==> #[trigger] Kc.colptr@[c] >= pcnt(P, c) + mdn(P, c),
+        forall|r: int| 0 <= r < A.m ==> #[trigger] Kc.colptr@[n + r] >= count_row(A.rowval@, r, A.rowval@.len() as int),
+        // colcount_to_colptr (its contract) and an allocation that covers the total count
+        Kp.colptr@.len() == Kc.colptr@.len(),
+        forall|c: int| 0 <= c < Kc.colptr@.len() ==> #[trigger] Kp.colptr@[c] == sum_upto(Kc.colptr@, c),
+        sum_upto(Kc.colptr@, Kc.colptr@.len() as int) <= Kp.rowval@.len(),
+    ensures kkt_triu_pre(Kp, P, A, n),
+{
+    assert forall|c: int| 0 <= c < n implies #[trigger] sp_triu(Kp, P, c) by {
+        assert(sum_upto(Kc.colptr@, c + 1) == sum_upto(Kc.colptr@, c) + Kc.colptr@[c]);
+        assert(Kp.colptr@[c] == sum_upto(Kc.colptr@, c)); assert(Kp.colptr@[c + 1] == sum_upto(Kc.colptr@, c + 1));
+    }
+    assert forall|r: int| 0 <= r < A.m implies #[trigger] sp_triu_a(Kp, A, n, r) by {
+        assert(sum_upto(Kc.colptr@, n + r + 1) == sum_upto(Kc.colptr@, n + r) + Kc.colptr@[n + r]);
+        assert(Kp.colptr@[n + r] == sum_upto(Kc.colptr@, n + r)); assert(Kp.colptr@[n + r + 1] == sum_upto(Kc.colptr@, n + r + 1));
+    }
+    lemma_sum_mono(Kc.colptr@, n + A.m, Kc.colptr@.len() as int);
+    assert(Kp.colptr@[n + A.m] == sum_upto(Kc.colptr@, n + A.m));
+}
 
 // C11 "a complete diagonal, recorded": chaining the contracts of the upper-triangle arm, backshift_colptrs and the
 // diag-map arm.  Kc = K after the cone loop, ASSUMED (the loop is not under contract) to leave the columns < n as the arm
